@@ -230,7 +230,24 @@ def run():
         print("VIOLATION property=%s replay=%s" % (prop, rp))
         log("  ", key, json.dumps(payload, default=str, ensure_ascii=False)[:400])
         reported += 1
+    # E1 companion: the union-find used by expand_shortcuts, on symbolic acyclic parent arrays of 6 symbols (Kani)
+    from . import parser_props as pp
+    from .e1check import E1Outcome, run_parser_groups, summarize
+    e1o = E1Outcome()
+    uf = pp.specs("grammar", "c15")
+    if tr == "quick":
+        uf = [x for x in uf if "uf_union" not in x["name"]]
+    run_parser_groups(prop, "c15", ["grammar"], uf, e1o, harness_timeout_s=900)
+    for v in e1o.violations:
+        if v.get("known"):
+            continue
+        if v.get("replay"):
+            print("VIOLATION property=%s replay=%s" % (prop, v["replay"]))
+            reported += 1
+    inconclusive += e1o.inconclusive
+    e1s = summarize(e1o)
     cov = dict(programs=stats["decided"], disagreements_checked=len(viol), samples=samples or [dict(note="none")], tier=tr, cases=len(cases),
+               e1_union_find=dict(harnesses=e1s["per_harness"], covers="%d/%d" % (e1s["covers_satisfied"], e1s["covers_total"]), solver_s=e1s["solver_s"]),
                decided=stats["decided"], grammars_changed_by_optimize=stats["changed"], compile_errors_skipped=stats["compile_errors"], too_large=stats["skipped"],
                parametric=stats["parametric"], queries=stats["queries"], solver_s=round(stats["solver_s"], 2), vacuity_twins="%d/%d sat" % (stats["twins_sat"], stats["twins"]),
                functions_encoded=["earley/grammar.rs Grammar::optimize / expand_shortcuts / uf_find / uf_union / uf_compress_all / rename / copy_from (run natively; both outputs exported with Grammar::to_string)",
